@@ -146,8 +146,11 @@ def build_runner():
     """Extract Runner.step and compile the OCaml driver (rebuilt only when the extracted code changes)."""
     BUILD.mkdir(exist_ok=True)
     rc, out = sh(["timeout", "300", "coqc", "-Q", "../theories", "PV", "-Q", "../gen", "PVGen", "../extraction/Extract.v"], cwd=BUILD, timeout=330)
+    if rc == 124:
+        # the time limit, not an error of the extraction: a loaded machine (seen once, with three other builds running) -- once more, patiently
+        rc, out = sh(["timeout", "1500", "coqc", "-Q", "../theories", "PV", "-Q", "../gen", "PVGen", "../extraction/Extract.v"], cwd=BUILD, timeout=1530)
     if rc != 0:
-        raise RuntimeError("extraction failed:\n" + out)
+        raise RuntimeError(f"extraction failed (exit status {rc}):\n" + out)
     drv = (VERIF / "runner/driver.ml").read_text()
     h = hashlib.sha256(((BUILD / "runner_core.ml").read_text() + drv).encode()).hexdigest()
     stamp = BUILD / "runner.sha"
@@ -156,6 +159,9 @@ def build_runner():
     (BUILD / "driver.ml").write_text(drv)
     rc, out = sh(["timeout", "300", "ocamlfind", "ocamlopt", "-O2", "-w", "-a", "runner_core.mli", "runner_core.ml",
                   "driver.ml", "-o", "runner"], cwd=BUILD, timeout=330)
+    if rc == 124:
+        rc, out = sh(["timeout", "1500", "ocamlfind", "ocamlopt", "-O2", "-w", "-a", "runner_core.mli", "runner_core.ml",
+                      "driver.ml", "-o", "runner"], cwd=BUILD, timeout=1530)
     if rc != 0:
         raise RuntimeError("runner build failed:\n" + out)
     stamp.write_text(h)
